@@ -186,6 +186,41 @@ func c08LongDriver(maxLen, rankLen int) func(c *explore.Chooser) *c08Case {
 	}
 }
 
+// very long chains: 64..257 operators of one operator, or alternating two (a parser that bounds its left spine,
+// switches representation or re-associates after N operands: seed C08f did at 100)
+func c08VeryLongDriver(lengths []int) func(c *explore.Chooser) *c08Case {
+	pairs := [][2]string{{"-", "*"}, {"+", "-"}, {"&&", "="}, {"/", "-"}, {"<", "+"}, {"||", "&&"}}
+	return func(c *explore.Chooser) *c08Case {
+		n := lengths[c.Choose(len(lengths))]
+		var o1, o2 string
+		if k := c.Choose(len(c08Ops) + len(pairs)); k < len(c08Ops) {
+			o1, o2 = c08Ops[k], c08Ops[k]
+		} else {
+			o1, o2 = pairs[k-len(c08Ops)][0], pairs[k-len(c08Ops)][1]
+		}
+		if (o1 == "=" || o1 == "<>" || o2 == "=" || o2 == "<>") && n >= 90 {
+			// = and <> draw a type variable each and fc stops at its stated capacity of 100 per function with a
+			// diagnostic - a limit, not a grouping
+			c.Skip("more than 90 equality operators in one function")
+		}
+		var ops []string
+		var sb strings.Builder
+		trees := []string{c08Atoms[0]}
+		sb.WriteString(c08Atoms[0])
+		for i := 0; i < n; i++ {
+			op := o1
+			if i%2 == 1 {
+				op = o2
+			}
+			ops = append(ops, op)
+			at := c08Atoms[(i+1)%len(c08Atoms)]
+			sb.WriteString(" " + op + " " + at)
+			trees = append(trees, at)
+		}
+		return &c08Case{src: sb.String(), expected: c08ShuntingYard(trees, ops), nops: len(ops), kind: "very-long"}
+	}
+}
+
 // pipe chains: e0 |> s1 |> ... with e0 a chain of <= 2 operators
 func c08PipeDriver(maxE0Ops, maxStages int) func(c *explore.Chooser) *c08Case {
 	return func(c *explore.Chooser) *c08Case {
@@ -417,10 +452,12 @@ func checkC08(c *core.Ctx) {
 		collect(c08Driver(4, 3, 4, 2, 2)) // chains <= 4 ops; forms on <= 3 ops (<= 2 non-atomic); <= 2 breaks on all
 		collect(c08PipeDriver(2, 3))
 		collect(c08LongDriver(16, 8))
+		collect(c08VeryLongDriver([]int{64, 99, 100, 101, 102, 103, 130, 257, 513, 1025}))
 	} else {
 		collect(c08Driver(3, 2, 3, 2, 1)) // chains <= 3 ops; forms on <= 2 ops; <= 1 break
 		collect(c08PipeDriver(1, 2))
 		collect(c08LongDriver(12, 6))
+		collect(c08VeryLongDriver([]int{64, 100, 101, 102, 103, 130, 257}))
 	}
 	c.Set("explorer", map[string]any{"executions": st.Executions, "max_depth": st.MaxDepth, "bound": "none (complete enumeration of the bounded space)"})
 	c.Count(0, st.States, st.Transitions, 0)
